@@ -240,3 +240,95 @@ func checkCTEFreshNames(c *core.Ctx, rule string) {
 	}
 	c.Decide(bad == "" && n > 0, rule, key, block.Pos(), n, "each reference gets fresh unique names and its own mapping", bad)
 }
+
+// checkChildMappingUntouched (ALIASMAP): the name mapping a child's Typecheck returns is also kept by the child —
+// DataSource.Typecheck stores the very same map in physical.Datasource.VariableMapping, the CTE table keeps it for the
+// next reference. A parent that writes into it (directly, or through a plain alias) changes what the child's physical
+// node means: with `FROM p.csv, p.csv` the right datasource's mapping was overwritten with the left one's unique names,
+// its columns resolved to "", it produced empty records, and the json printer indexed past them.
+func checkChildMappingUntouched(c *core.Ctx, rule string) {
+	p := c.Prog
+	n := 0
+	for _, fr := range p.AllFuncs("logical") {
+		if core.Rel(fr.Pkg) != "logical" || fr.Decl.Name.Name != "Typecheck" {
+			continue
+		}
+		info := fr.Info()
+		name := p.FName(fr)
+		// maps received from a child's Typecheck, and their plain aliases
+		received := map[types.Object]string{}
+		for changed := true; changed; {
+			changed = false
+			ast.Inspect(fr.Decl.Body, func(nd ast.Node) bool {
+				as, ok := nd.(*ast.AssignStmt)
+				if !ok {
+					return true
+				}
+				if len(as.Lhs) == 2 && len(as.Rhs) == 1 {
+					if call, ok := as.Rhs[0].(*ast.CallExpr); ok {
+						if sel, ok := call.Fun.(*ast.SelectorExpr); ok && sel.Sel.Name == "Typecheck" {
+							if id, ok := as.Lhs[1].(*ast.Ident); ok && id.Name != "_" {
+								obj := info.Defs[id]
+								if obj == nil {
+									obj = info.Uses[id]
+								}
+								if _, isMap := obj.Type().Underlying().(*types.Map); isMap && received[obj] == "" {
+									received[obj] = core.ExprStr(sel.X) + ".Typecheck"
+									changed = true
+								}
+							}
+						}
+					}
+				}
+				if len(as.Lhs) == 1 && len(as.Rhs) == 1 {
+					if rid, ok := core.Unparen(as.Rhs[0]).(*ast.Ident); ok {
+						if src, ok := received[info.Uses[rid]]; ok {
+							if lid, ok := as.Lhs[0].(*ast.Ident); ok {
+								obj := info.Defs[lid]
+								if obj == nil {
+									obj = info.Uses[lid]
+								}
+								if obj != nil && received[obj] == "" {
+									received[obj] = src + " (through " + rid.Name + ")"
+									changed = true
+								}
+							}
+						}
+					}
+				}
+				return true
+			})
+		}
+		if len(received) == 0 {
+			continue
+		}
+		n++
+		c.SawFunc(name)
+		bad := ""
+		ast.Inspect(fr.Decl.Body, func(nd ast.Node) bool {
+			switch v := nd.(type) {
+			case *ast.AssignStmt:
+				for _, l := range v.Lhs {
+					if ix, ok := l.(*ast.IndexExpr); ok {
+						if id, ok := core.Unparen(ix.X).(*ast.Ident); ok {
+							if src, ok := received[info.Uses[id]]; ok && bad == "" {
+								bad = fmt.Sprintf("%s: writes into %s, the mapping returned by %s, which the child's physical node keeps using", p.Pos(v.Pos()), id.Name, src)
+							}
+						}
+					}
+				}
+			case *ast.CallExpr:
+				if core.ExprStr(v.Fun) == "delete" && len(v.Args) == 2 {
+					if id, ok := core.Unparen(v.Args[0]).(*ast.Ident); ok {
+						if src, ok := received[info.Uses[id]]; ok && bad == "" {
+							bad = fmt.Sprintf("%s: deletes from %s, the mapping returned by %s", p.Pos(v.Pos()), id.Name, src)
+						}
+					}
+				}
+			}
+			return true
+		})
+		c.Decide(bad == "", rule, name, fr.Decl.Pos(), len(received), "the children's mappings are only read", bad)
+	}
+	c.Floor(rule, 8, "Typecheck methods that receive a child's mapping")
+}
